@@ -310,6 +310,15 @@ def wire_rules(ctx, R, verbs=True):
     rets = [r for r in walk_no_nested(lb.node) if isinstance(r, ast.Return) and r.value is not None]
     if not rets:
         raise AnalysisError("W4", "literal builder returns nothing")
+    lev = literal_eval(ctx, R, lb, strict=verbs)
+    if lev is not None and lev[0] == "bad":
+        ctx.violation("W4", lb, "model:literal", lev[1], node=lb.node, witness=lev[2])
+        rets = []
+    elif lev is not None:
+        ctx.holds("W4", "%s: for %d sample contents (empty, non-ASCII, LF / CRLF / CR / blank lines, quotes, a `{3+}` look-alike) the result is "
+                  "{n+} CRLF data with n = len(data) and data = the content's UTF-8 bytes%s" % (
+                      lb.qualname, lev[1], "" if verbs else " (line endings aside)"))
+        rets = []
     for r in rets:
         v = r.value
         if isinstance(v, ast.Call) and ctx.program.cls(call_name(v) or "") is not None and v.args:
@@ -732,6 +741,64 @@ def escaper_order(ctx, f, exprs, var, depth=0):
     if min(bs) > min(dq):
         return "escaping the quote before the backslash (the quote's own backslash gets doubled)"
     return True
+
+
+LITERAL_SAMPLES = ["", "a", "\u00e9t\u00e9 \u2028x", "keep;\n", "a\r\nb\n\nc\rd\r\n\r\ne", 'x"y\\z', "{3+}\r\nabc", "# c\n\n\nstop;"]
+
+
+def literal_eval(ctx, R, lb, strict=True):
+    """W4 by evaluation: the literal builder interpreted over sample contents.  The result must be `{n+}` CRLF data with n = len(data);
+    data must be the UTF-8 bytes of the content (strict: C08, the server decodes the caller's value) or equal to them once every line
+    ending is read as one line break (C14 / C15: `line endings aside`).  -> ("ok", n) | ("bad", what, witness) | None"""
+    import re
+    from sa.util import module_resolver
+    if len(lb.params) != 2:
+        return None
+
+    def oracle(interp, e, name, recv, args, kw, st):
+        fn = e.func
+        if isinstance(fn, ast.Name) and ctx.program.cls(fn.id) is not None and len(args) == 1 and isinstance(args[0], fd.Const) \
+                and isinstance(args[0].v, (bytes, bytearray)) and not kw:
+            c = ctx.program.cls(fn.id)
+            if any(norm(b) in ("bytes", "bytearray") for b in c.node.bases):
+                return [(args[0], None)]  # a bytes subclass used as a marker: the same octets
+        if isinstance(fn, ast.Name) and fn.id in R.module.funcs:
+            return fd.Inline(R.module.funcs[fn.id])
+        if name and name.startswith("self.") and name[5:] in R.methods and R.methods[name[5:]].node is not interp.f:
+            return fd.Inline(R.methods[name[5:]])
+        if isinstance(fn, ast.Attribute) and isinstance(fn.value, ast.Name) and fn.value.id in ctx.program.modules \
+                and fn.attr in ctx.program.modules[fn.value.id].funcs:
+            return fd.Inline(ctx.program.modules[fn.value.id].funcs[fn.attr])
+        return None
+    one = lambda b: re.sub(rb"\r\n|\r|\n", b"\n", b)
+    n = 0
+    for sample in LITERAL_SAMPLES:
+        it = fd.Interp(lb.node, R.cls.name, oracle, resolve=module_resolver(ctx.program, R.module), loop_unroll=40, max_paths=50)
+        try:
+            ps = it.run({lb.params[1]: fd.Const(sample)})
+        except fd.TooManyPaths:
+            return None
+        if len(ps) != 1 or ps[0].kind != "return" or not isinstance(ps[0].value, fd.Const) or not isinstance(ps[0].value.v, (bytes, bytearray)):
+            return None
+        out = bytes(ps[0].value.v)
+        raw = sample.encode("utf-8")
+        n += 1
+        m = re.fullmatch(rb"\{(\d+)(\+?)\}\r\n(.*)", out, re.S)
+        if m is None:
+            return ("bad", "for the content %r the literal builder returns %r, which is not {n+} CRLF data" % (sample, out[:60]),
+                    "the server cannot tell where the script ends")
+        if m.group(2) != b"+":
+            return ("bad", "for the content %r the builder announces a synchronising literal {%s}: the client does not wait for the server's "
+                    "go-ahead" % (sample, m.group(1).decode()), "the upload hangs or is refused")
+        if int(m.group(1)) != len(m.group(3)):
+            return ("bad", "for the content %r the literal announces %d octets and carries %d" % (sample, int(m.group(1)), len(m.group(3))),
+                    "putscript('x', %r): the rest of the script is read as the next command (or the server waits for more)" % sample)
+        data = m.group(3)
+        if data != raw and (strict or one(data) != one(raw)):
+            return ("bad", "for the content %r the literal carries %r, not the content's UTF-8 bytes%s" % (
+                sample, data[:60], "" if strict else " (not even line endings aside)"),
+                "the stored script differs from the one the caller passed")
+    return ("ok", n)
 
 
 def literal_template_ok(ctx, f, e, want_var=None):
